@@ -2,7 +2,7 @@ SPECIFICATION Spec
 CONSTANTS
   MaxC = 2
   MaxLen = 2
-  ModelKinds = {"str", "list_str", "int"}
+  ModelKinds = {"str", "list_str"}
   FormOps = {"<=", ">="}
   Sides = {"L"}
 INVARIANT TypeOK
